@@ -137,6 +137,39 @@ def run(ctx):
         res.case()
         if got != "RuntimeError":
             res.violation("an amplitude with a particle outside the event type is not refused", {"kind": "perms-missing", "event_type": pat}, impl=got, clause="permutation set")
+    # ---- a chain that uses fewer copies of a particle than the event type has (a sub-chain of an amplitude asked for its
+    # permutations, an event type with a spare copy or with further particles): the assignments are still exactly the one-to-one ones
+    from collections import Counter
+
+    for pat in patterns:
+        for big in patterns:
+            if len(big) <= len(pat) or Counter(pat) - Counter(big):
+                continue
+            for shape in tree_shapes(list(pat)):
+                if isinstance(shape, str):
+                    continue
+                md = build(shape)
+                for ev in sorted(set(itertools.permutations(big))):
+                    fs = list(ev)
+                    case = {"kind": "perms", "tree": shape, "event_type": fs, "note": "the event type has more particles than the chain uses"}
+                    want = brute_perms(flat(shape), fs)
+                    try:
+                        got = [list(a) for a in md.list_structure(fs)]
+                    except Exception as e:
+                        got = f"{type(e).__name__}"
+                    res.case(canon_json(case))
+                    res.count("perm_cases_larger_event_type")
+                    if got != want:
+                        res.violation("permutations are not exactly the one-to-one assignments to positions of identical particles", case, impl=got, model=want, clause="permutation set")
+
+                    def on2(ans, case=case, got=got):
+                        if ans is None:
+                            return
+                        m = [[int(x) for x in a] for a in ans[1]] if ans[0] == "ok" else ans[1]
+                        if m != got:
+                            res.violation("list_structure differs from the model", case, impl=got, model=m, clause="model tie: listStructure")
+
+                    batch.add(["perms", flat(shape), fs], on2)
     # ---- emitted blocks
     A.install_cache()
     n_docs = 40 if tier == "quick" else 500
